@@ -31,14 +31,14 @@ from rv.props import C15_ops as ops
 
 PLAN = {
     "quick": {"cases": 3000, "hashseeds": 3, "shards": 5, "timeout": 420, "min_nontrivial": 1200},
-    "thorough": {"cases": 40000, "hashseeds": 8, "shards": 2, "timeout": 3000, "min_nontrivial": 15000},
+    "thorough": {"cases": 10000, "hashseeds": 8, "shards": 2, "timeout": 3000, "min_nontrivial": 4500},
 }
 _SCALE = float(os.environ.get("RV_C15_SCALE", "1") or 1)        # development aid: shrink / stretch the case counts
 if _SCALE != 1:
     for _t in PLAN.values():
         _t["cases"] = max(30, int(_t["cases"] * _SCALE))
         _t["min_nontrivial"] = max(5, int(_t["min_nontrivial"] * _SCALE))
-RULE = ("one case = one edit history of 5-60 steps on a pool (<= 5 live objects) that starts from one empty "
+RULE = ("one case = one edit history of 5-60 steps (thorough: up to 110) on a pool (<= 5, thorough <= 7 live objects) that starts from one empty "
         "model; kinds: BayesianNetwork (str or int node names, incl. latent flags), DAG/BayesianNetwork "
         "construction from acyclic / cyclic / self-loop edge lists, DynamicBayesianNetwork ((name, slice) nodes), "
         "MarkovNetwork, JunctionTree; ops add_node(s)/add_edge(s)/remove_node(s)/add_cpds|factors/"
@@ -111,7 +111,10 @@ def gen_case(seed, idx, tier):
     rng = gen.rng_for("C15", seed, idx)
     kind = _wchoice(rng, KINDS)
     L = rng.choice([rng.randint(5, 15), rng.randint(12, 40), rng.randint(25, 60)])
-    spec = {"kind": kind, "np_seed": rng.randrange(2 ** 31), "sn": rng.choice(["id", "id", "str"])}
+    if tier == "thorough" and rng.random() < 0.3:
+        L = rng.randint(60, 110)                      # deeper histories, more live objects
+    spec = {"kind": kind, "np_seed": rng.randrange(2 ** 31), "sn": rng.choice(["id", "id", "str"]),
+            "maxpool": 5 if tier != "thorough" else rng.choice([5, 7])}
     if kind in ("bn", "dag"):
         spec["names"] = [0, 1, 2, 3, 4, 5] if rng.random() < 0.2 else ["a", "b", "c", "d", "e", "f"]
     elif kind == "dbn":
